@@ -45,7 +45,7 @@ def check_graph(lid, g, edges, V, obs):
     elif 'real' in g:
         # expanded mode (see c13.build_lexicon): the graph is borrowed from the expand lexicon <lid>q, only the
         # nodes of the 'real' mask exist in the queried lexicon, the rest are *INFERRED* placeholders
-        w = wn.Wordnet(lexicon=f'{lid}:1', expand=f'{lid}q:1')
+        w = wn.Wordnet(lexicon=f'{lid}:1 {lid}b:1' if g.get('split') else f'{lid}:1', expand=f'{lid}q:1')
         idx = [i for i in range(n) if g['real'] >> i & 1]
     else:
         w = wn.Wordnet(lexicon=f'{lid}:1', expand='')
@@ -279,6 +279,11 @@ def space(tier, seed):
     for h in (dag_masks(4) if tier == 'quick' else range(1 << 12)):
         for r in ((2,) if tier == 'quick' else (2, 3)):
             gs.append({'n': 4, 'loops': False, 'h': h, 'real': (1 << r) - 1, 'tables': []})
+    # ... and with the two stored synsets in two different queried lexicons
+    for h in range(1 << 9):
+        gs.append({'n': 3, 'loops': True, 'h': h, 'real': 3, 'split': 2, 'tables': []})
+    for h in dag_masks(4):
+        gs.append({'n': 4, 'loops': False, 'h': h, 'real': 3, 'split': 2, 'tables': []})
     # extension mode: one node and its edges, the first edge, or all edges come from a lexicon extension
     for n, hs in ((3, range(1, 1 << 6)), (4, dag_masks(4))):
         for h in hs:
